@@ -77,7 +77,8 @@ class AffineEvaluator:
     """f[r,k](x) = A[r,k,:].x + b[r,k] in the user domain; records every call.
 
     fail: dict (r, p) -> list of ("obj"|"con", column) entries that are NaN
-          (p == -1 for the unperturbed row); optionally keyed (call, r, p).
+          (p == -1 for the unperturbed row); optionally keyed (call, r, p) or
+          (call, r, p, j) for the j-th vector of a batch only.
     garbage: value (or callable(call,row,kind,col)) written into inactive entries.
     quad: optional curvature so that the function is not affine: + q * |x|^2.
     """
@@ -123,8 +124,11 @@ class AffineEvaluator:
         c_n = 0 if self.a_con is None else self.a_con.shape[1]
         obj = np.zeros((rows, k_n))
         con = np.zeros((rows, c_n)) if c_n else None
+        seen: dict[tuple[int, int], int] = {}
         for i in range(rows):
             r, p = int(reals[i]), int(perts[i])
+            occurrence = seen.get((r, p), 0)  # j-th row of this call with label (r, p): the j-th vector of a batch
+            seen[(r, p)] = occurrence + 1
             x = variables[i]
             for k in range(k_n):
                 active = context.active_objectives is None or bool(context.active_objectives[k, r])
@@ -139,7 +143,7 @@ class AffineEvaluator:
                     con[i, c] = self.value("con", r, c, x)
                 else:
                     con[i, c] = self.garbage(call, i, "con", c) if callable(self.garbage) else self.garbage
-            for key in ((r, p), (call, r, p)):
+            for key in ((r, p), (call, r, p), (call, r, p, occurrence)):
                 for kind, col in self.fail.get(key, ()):
                     if kind == "obj":
                         obj[i, col] = np.nan
